@@ -605,6 +605,11 @@ func Generate(r *rand.Rand, o Options) *World {
 		if o.Elements {
 			dn[d].params = names(r.Intn(3), "p")
 			dn[d].resps = names(r.Intn(3), "r")
+			if o.ElementCycles {
+				// enough elements, mostly references, for cycles of length two and more to appear
+				dn[d].params = names(2+r.Intn(2), "p")
+				dn[d].resps = names(2+r.Intn(2), "r")
+			}
 			for _, n := range dn[d].params {
 				nodes = append(nodes, node{d, "parameter", n, []string{"parameters", n}})
 			}
@@ -702,7 +707,7 @@ func Generate(r *rand.Rand, o Options) *World {
 		return s
 	}
 	genParam := func(doc, self int, allowRef bool) wire.V {
-		if allowRef && r.Float64() < o.RefP {
+		if allowRef && (r.Float64() < o.RefP || (o.ElementCycles && r.Intn(4) > 0)) {
 			if t, ok := pickTarget("parameter", self); ok {
 				return refTo(doc, t)
 			}
@@ -713,7 +718,7 @@ func Generate(r *rand.Rand, o Options) *World {
 		return wire.ObjV(wire.M("name", wire.StrV(fmt.Sprintf("q%d", r.Intn(50)))), wire.M("in", wire.StrV("query")), wire.M("type", wire.StrV("string")))
 	}
 	genResp := func(doc, self int, allowRef bool) wire.V {
-		if allowRef && r.Float64() < o.RefP {
+		if allowRef && (r.Float64() < o.RefP || (o.ElementCycles && r.Intn(4) > 0)) {
 			if t, ok := pickTarget("response", self); ok {
 				return refTo(doc, t)
 			}
@@ -736,7 +741,7 @@ func Generate(r *rand.Rand, o Options) *World {
 		return op.Set("responses", rs)
 	}
 	genPathItem := func(doc, self int, allowRef bool) wire.V {
-		if allowRef && r.Float64() < o.RefP {
+		if allowRef && (r.Float64() < o.RefP || (o.ElementCycles && r.Intn(4) > 0)) {
 			if t, ok := pickTarget("pathItem", self); ok {
 				return refTo(doc, t)
 			}
